@@ -10,6 +10,7 @@ CONSTANTS
   ImsLe = TRUE
   ImsLocalTime = FALSE
   ImsNotAfterNow = FALSE
+  BigPositions = TRUE
   Tokens <- NoTokens
   MaxTokens = 0
   StartPaths <- HistFiles
